@@ -75,7 +75,11 @@ def run_one(EoN, sc, full):
         if sc.get("reuse"):
             random.seed(sc["seed"] + 1000)
             np.random.seed(sc["seed"] + 1000)
-            fn()
+            if sc.get("weighted"):
+                # ... and at that time the graph object carried other weights (the caller has edited them in place since)
+                common.prime_other_weights(G, lambda g_: fn())
+            else:
+                fn()
             random.seed(sc["seed"])
             np.random.seed(sc["seed"])
         return fn()
